@@ -50,13 +50,14 @@ Proof. exact reachable_at_rest. Qed.
 Print Assumptions C02_tasks_at_rest_between_operations.
 
 (** [no_glitch_in_run]: every value read during a run (of an effect or a memo body; [CtxDep]: the
-    running body statically mentions what it reads) is, at that moment, the cached value of a
+    running body statically mentions what it reads; the node read has not been disposed) is, at
+    that moment, the cached value of a
     Clean memo whose whole tracked cone is current, or the signal's present value *)
 Theorem C02_no_glitch_in_run :
   forall p, wf_prog p ->
   forall m c j s stk t s' v,
   Inv p stk t s -> ctx_ok stk c -> TopOK c s -> j < t -> j < length p -> effb p j = false ->
-  CtxDep p c j ->
+  CtxDep p c j -> dead p s j = false ->
   read_any p m c j s = (s', v) ->
   Inv p stk t s' /\
   (memob p j = true -> cache (getn s' j) = Some v /\ ConsistentM p s' j) /\
